@@ -8,5 +8,7 @@ CONSTANTS
   Routes = {"kwargs"}
   Layouts = {"flat"}
   Slim = TRUE
+  HistKinds = {}
+  MaxLookups = 0
 INVARIANT NoClassConfigFollowsDocs
 CHECK_DEADLOCK FALSE
